@@ -98,6 +98,8 @@ def gen_tree(rng):
             if rng.random() < 0.5:
                 items.append(("mark", 0x40 + i))
         items.append(("mark", 0x80 + i))
+        if i > 0 and rng.random() < 0.12:
+            items = [it for it in items if it[0] != "mark"][:rng.choice([0, 0, 1])]      # a file that emits nothing itself
         files[p] = {"items": items, "once": rng.random() < 0.3}
     return files, root
 
